@@ -79,6 +79,13 @@ CHECKS['C16'] = dict(
    note='Trusted: Coq kernel; hand model of ldirectory; the oracle (real single-file command line); os.utime-controlled logical clock. PARTIAL: creation of new source names inside a history is outside C16_history (fixed name set), covered by the correspondence; OS glob order and mtime granularity are outside the model.',
    design='3/C16')
 
+CHECKS['C13'] = dict(
+   category='other',
+   technique='Coq proof of the cache protocol (invariant by induction over all interleaved schedules, PLY as an oracle) + correspondence on real processes, threads, hash seeds and damaged cache files',
+   text='Theorem C13_cache_irrelevant: for every number of processes, every schedule of the sub-steps of their parser constructions and every initial state of the shared table file (absent, valid, truncated at any prefix, foreign), if no table module sits in the package directory every parse uses freshly generated tables. The rest of the property is about real processes and is decided by correspondence: histories of valid and failing compilations (including ones that stop inside parentheses, url(, a media query, a string) in one process vs fresh-process compiles; stream vs file object; five hash seeds; 8 threads; 6 (quick) / 16 (thorough) processes started together on one temporary directory for every cache state: cold, warm, every file a compile leaves there truncated at sampled (quick) / dense (thorough) prefix lengths, foreign text, well-formed-but-wrong tables.',
+   note='PARTIAL (category other): OS scheduling, partial writes below chunk granularity, CPython import locks are runtime behaviour outside any executable model. PLY 3.11 contract is an oracle (Section variables of Model/Cache.v), checked by experiment: the temp-dir table is written, never read.',
+   design='3/C13')
+
 NOT_YET = {}
 
 
